@@ -1,5 +1,6 @@
-//! Damage plans: 1–3 of {bit flip, byte overwrite, truncation, appended suffix}, positions drawn
-//! per region class so that small regions are hit as often as large ones.
+//! Damage plans: 1–3 of {bit flip, byte overwrite, truncation, appended suffix, overwritten run of
+//! 2–64 bytes}, positions drawn per region class so that small regions are hit as often as large
+//! ones.
 
 use proptest::prelude::*;
 use serde::{Deserialize, Serialize};
